@@ -252,6 +252,12 @@ def specs(tier):
                                     {'closed': True, 'hunks': [[[2, 0]]]}]},
             {'nblocks': 3, 'bands': [{'closed': False, 'hunks': [[[0]]]}, {'closed': True, 'hunks': [[[0]], [[1]]]}]},
             {'nblocks': 1, 'bands': []},
+            # four versions sharing blocks pairwise, a gap in the band numbers, an interrupted band in the middle of the history
+            {'nblocks': 5, 'bands': [{'closed': True, 'hunks': [[[0], [1]]]}, {'closed': True, 'hunks': [[[1], [2]]]}, None,
+                                    {'closed': True, 'hunks': [[[2]], [[3]]]}, {'closed': True, 'hunks': [[[3, 0]]]}]},
+            {'nblocks': 4, 'bands': [{'closed': True, 'hunks': [[[0]]]}, {'closed': False, 'hunks': [[[1]], [[2]]]}, {'closed': True, 'hunks': [[[0], [3]]]}]},
+            # one entry spread over three blocks, each shared with another version at an offset
+            {'nblocks': 3, 'bands': [{'closed': True, 'hunks': [[[0, 1, 2]]]}, {'closed': True, 'hunks': [[[1]], [[2], [0]]]}]},
         ]
     for c in combos:
         for lock in (False, True):
@@ -265,6 +271,9 @@ def cases(tier):
     for spec in specs(tier):
         bands = [b for b, x in enumerate(spec['bands']) if x is not None]
         subsets = [[]] + [[b] for b in bands] + ([bands] if len(bands) > 1 else [])
+        if tier != 'quick' and len(bands) > 2:
+            # also: everything but the newest, and the two oldest
+            subsets += [bands[:-1], bands[:2]]
         for delete in subsets:
             for dry in (False, True):
                 for brk in ((False, True) if spec['lock'] else (False,)):
